@@ -66,6 +66,12 @@ class Bit:
         self.f = f          # ('atom', var, i) | ('not', f) | ('and', f, g) | ('or', f, g) | ('xor', f, g) | ('const', 0/1)
 
 
+class Window:
+    """(word >> i) & (2^k - 1): k adjacent bits read as a small number"""
+    def __init__(self, var, i, k):
+        self.var, self.i, self.k = var, i, k
+
+
 class NotBit:
     """!(0/1 value) on the full word"""
     def __init__(self, f):
@@ -174,6 +180,10 @@ class Folder:
             sub.params = args
             tb = tgt.body
             return sub.ev(tb.ret_val[tb.cfg.returns[0]], depth + 1)
+        if nm in ('from', 'into') and len(v.args) == 1 and prog.classify(v) == 'std':
+            a = self.ev(v.args[0], depth + 1)
+            if isinstance(a, (Bit, int)):
+                return a            # bool -> integer: still the same 0/1 value
         raise Undecided('call of %s' % nm)
 
     def binop(self, op, a, b, v):
@@ -212,6 +222,8 @@ class Folder:
             for x, y in ((a, b), (b, a)):
                 if isinstance(x, Shifted) and y == 1:
                     return Bit(('atom', x.var, x.i))
+                if isinstance(x, Shifted) and isinstance(y, int) and y > 1 and (y & (y + 1)) == 0 and y.bit_length() <= 4:
+                    return Window(x.var, x.i, y.bit_length())
                 if isinstance(x, Bit) and y == 1:
                     return x
                 if isinstance(x, Bit) and isinstance(y, Bit):
@@ -220,6 +232,31 @@ class Folder:
                     return Bit(('and', x.f, ('not', y.f)))
                 if isinstance(x, NotBit) and y == 1:
                     return Bit(('not', x.f))
+        if op in ('Eq', 'Ne', 'Gt', 'Lt'):
+            for x, y, o in ((a, b, op), (b, a, {'Gt': 'Lt', 'Lt': 'Gt'}.get(op, op))):
+                if isinstance(x, Window) and isinstance(y, int):
+                    ats = [('atom', x.var, x.i + j) for j in range(x.k)]
+                    full = (1 << x.k) - 1
+                    f = None
+                    if y == 0 and o in ('Ne', 'Gt'):
+                        f = ats[0]
+                        for t in ats[1:]:
+                            f = ('or', f, t)
+                    elif y == 0 and o == 'Eq':
+                        f = ats[0]
+                        for t in ats[1:]:
+                            f = ('or', f, t)
+                        f = ('not', f)
+                    elif y == full and o in ('Eq', 'Ne'):
+                        f = ats[0]
+                        for t in ats[1:]:
+                            f = ('and', f, t)
+                        if o == 'Ne':
+                            f = ('not', f)
+                    if f is not None:
+                        return Bit(f)
+                if isinstance(x, Bit) and y in (0, 1) and o in ('Eq', 'Ne'):
+                    return Bit(x.f if (y == 1) == (o == 'Eq') else ('not', x.f))
         if op in ('BitOr', 'BitXor') and isinstance(a, Bit) and isinstance(b, Bit):
             return Bit(('or' if op == 'BitOr' else 'xor', a.f, b.f))
         if op == 'BitXor':
